@@ -79,6 +79,16 @@ def struct_from(prog, adt, ty=None, **kw):
     return Struct(ty or adt, [kw[n] for n in names])
 
 
+def field_bits(prog, adt, name):
+    a = prog.adts[adt]
+    for f in a['variants'][0]['fields']:
+        if f['name'] == name:
+            ti = prog.types.get(f['ty'])
+            if ti and ti['k'] == 'int':
+                return ti['bits']
+    return 64
+
+
 def zobrist(hf):
     return Struct('zobrist::Zobrist', (hf,))
 
@@ -120,7 +130,7 @@ def game_state(prog, p1_turn, phase, pb=None, hash_name='h', move_number=None):
         p1_turn = TRUE if p1_turn else FALSE
     return struct_from(prog, 'engine::GameState',
                        p1_turn_to_move=p1_turn,
-                       move_number=move_number if move_number is not None else Term('tok', ('n',), 64),
+                       move_number=move_number if move_number is not None else Term('tok', ('n',), field_bits(prog, 'engine::GameState', 'move_number')),
                        phase=phase,
                        piece_board=pb if pb is not None else piece_board(prog, ''),
                        hash=opaque_hash(hash_name))
